@@ -312,6 +312,11 @@ def hypsB (key : List Bytes) (db : DB) (t : Tape) (absent : List Bytes) : Bool :
       let perms := t.filterMap fun d => match d with | .nats p => some p | _ => none
       let keys := db.flatMap fun p => (List.range (nChunks cfg levels p.2)).map fun c => htKey cfg lv k1 p.1 (c + 1)
       nodupBy (db.map (·.1)) &&
+      -- `setup_never_raises`: the level list ascends, has no negative level, holds every list, and the fields are wide enough
+      (levels.zip levels.tail).all (fun p => decide (p.1 ≤ p.2)) && levels.all (fun a => decide (0 ≤ a)) &&
+      db.all (fun p => levels.any fun a => fits cfg a p.2.length) &&
+      levels.all (fun a => decide (a.toNat < 256 ^ (cfg.dsz / 2)) &&
+        decide ((divideToBuckets (2 * db.total + 2 ^ (a + 1).toNat) (2 ^ (a + 1).toNat)).1.length ≤ 256 ^ (cfg.dsz - cfg.dsz / 2))) &&
       db.all (fun p => p.2.all fun x => (x.length : Int) == cfg.idSize) &&
       keys.all (fun k => match k with | .ok g => !tapeBytes.contains g | .error _ => false) &&
       nodupBy (keys.map fun k => match k with | .ok g => g | .error _ => []) &&
